@@ -109,6 +109,20 @@ def check_point(rec, V):
             V.report({**sig0, "clause": "weight_near_tie" if near else "weight_of_trap"},
                      {"pts": pts, "weights_in_input_order": weights, "got": wm})
             break
+    # 6b. a qubit that sits on a trap only after rounding to 1e-6 um (residue below the precision)
+    #     still gets the weight of that trap: same rounding as the layout itself uses
+    res = 3e-7
+    shifted = {f"s{i}": [c + res for c in coords[i]] for i in range(n)}
+    ws = dmap.get_qubit_weight_map(shifted)
+    tests += 1
+    if not near:
+        for i in range(n):
+            # only when the shifted position still rounds onto the same trap
+            if all(round((c + res) * 1e6) == round(c * 1e6) for c in coords[i]) \
+                    and abs(ws[f"s{i}"] - weights[i]) > 1e-12:
+                V.report({**sig0, "clause": "weight_sub_precision_residue"},
+                         {"pts": pts, "i": i, "expected": weights[i], "got": ws[f"s{i}"]})
+                break
     far = {"z": [12345.0] * dim}
     if abs(dmap.get_qubit_weight_map(far)["z"]) > 0:
         V.report({**sig0, "clause": "weight_zero_off_trap"}, {"pts": pts})
@@ -117,6 +131,21 @@ def check_point(rec, V):
     tests += 1
     if not np.allclose(sw, exp_sw):
         V.report({**sig0, "clause": "sorted_weights"}, {"pts": pts, "got": sw, "expected": exp_sw})
+    # 7. the arrays handed out by the accessors are copies: editing them in place must not change
+    #    the layout (trap ids, equality, hash, placement of registers, look-ups)
+    h0, td0 = lay.static_hash(), {k: v.copy() for k, v in lay.traps_dict.items()}
+    for getter in (lambda: lay.coords, lambda: lay.sorted_coords, lambda: next(iter(lay.traps_dict.values())),
+                   lambda: dmap.sorted_coords, lambda: dmap.trap_coordinates):
+        try:
+            arr = getter()
+            arr += 17.0
+        except (ValueError, TypeError):
+            continue          # a read-only view is fine too
+    tests += 1
+    if lay.static_hash() != h0 or any(not np.array_equal(lay.traps_dict[k], td0[k]) for k in td0) \
+            or list(lay.get_traps_from_coordinates(*coords)) != list(ids) \
+            or not (RegisterLayout(coords) == lay):
+        V.report({**sig0, "clause": "accessor_aliases_internal_array"}, {"pts": pts})
     return tests
 
 
